@@ -8,6 +8,7 @@ Only statements and short proofs here; the work is in JPV/Lemmas/{ValWf,SubIdx,D
 Assemble,SpecLemmas,StepSem,BuildDen}.lean.
 -/
 import JPV.Lemmas.BuildDen
+import JPV.Lemmas.BuildWf
 namespace JPV
 namespace C01Build
 open TSem Impl Build BD
@@ -136,6 +137,23 @@ theorem C01_build (env : Env) (cfg : Cfg) (p : Path) (ch : List N) (d : Val)
   | none => rfl
   | some l => cases l <;> rfl
 
+/-! ### 5. built trees are well formed (the hypothesis of the lower half, `run_refines`) -/
+
+/-- **build_wf**: in a built chain every function is registered, every comparison operand is a
+    single-valued chain, and the right operand of a comparison is never an `@`-path -/
+theorem build_wf (env : Env) (cfg : Cfg) (top : Bool) (p : Path) (ch : List N)
+    (hb : Build.buildPath env cfg top p = .ok ch) : wfChain env ch = true :=
+  BW.build_wf env cfg top p ch hb
+
+theorem buildQ_wf (env : Env) (cfg : Cfg) (q : Query) (tq : Q)
+    (hb : Build.buildQ env cfg q = .ok tq) : wfQ env tq = true :=
+  BW.buildQ_wf env cfg q tq hb
+
+/-- a chain `buildPath` does not flag as a value group is a single-valued chain -/
+theorem build_singleChain (env : Env) (cfg : Cfg) (top : Bool) (p : Path) (ch : List N)
+    (hb : Build.buildPath env cfg top p = .ok ch) (hvg : chainVg ch = false) : singleChain ch = true :=
+  (BW.path_wf env cfg p top ch hb).2 hvg
+
 /-! ### a non-trivial instance: `$..[?(@.a>1)].a.max()` -/
 
 def maxFn : List Val → Option Val
@@ -161,12 +179,14 @@ def exDoc : Val := .obj [("x", .arr [.obj [("a", .num 1)], .obj [("a", .num 2)],
 
 /-- the hypotheses of `C01_build` hold for this instance and both sides compute `[3]` -/
 example : ∃ ch, Build.build exEnv ⟨true⟩ exPath = .ok ch ∧ exDoc.wf = true ∧
-    TSem.run exEnv ch exDoc = some [.num 3] ∧ Spec.run exEnv exPath exDoc = some [.num 3] := by
-  refine ⟨?ch, ?h1, by decide, ?h2, rfl⟩
+    TSem.run exEnv ch exDoc = some [.num 3] ∧ Spec.run exEnv exPath exDoc = some [.num 3] ∧
+    wfChain exEnv ch = true := by
+  refine ⟨?ch, ?h1, by decide, ?h2, rfl, ?h3⟩
   case h1 =>
     simp only [Build.build, exPath, buildPath_eq, stepsPre, stepPre, stepPre_desc, buildQ, buildOperand, buildP_eq]
     rfl
   case h2 => rfl
+  case h3 => rfl
 
 /-- `build_semQ` / `build_operand` on `@.a > 1` over the members `[{"a":1},{"a":2},{"a":3}]` -/
 example : ∃ tq, Build.buildQ exEnv ⟨true⟩ (.cmp .gt (.path (.mk .cur [.child ".a" "a"] [])) (.lit (.num 1))) = .ok tq ∧
@@ -183,4 +203,4 @@ end JPV
 -- OBLIGATIONS: JPV.C01Build.sortKV_of_keysAsc JPV.C01Build.wf_inherited JPV.C01Build.subIndexes_eq_spec
 --   JPV.C01Build.subIndexes_in_range JPV.C01Build.build_den JPV.C01Build.build_den_cur JPV.C01Build.build_den_root
 --   JPV.C01Build.build_single JPV.C01Build.build_den_full_false JPV.C01Build.build_semQ JPV.C01Build.build_operand
---   JPV.C01Build.C01_build
+--   JPV.C01Build.C01_build JPV.C01Build.build_wf JPV.C01Build.buildQ_wf JPV.C01Build.build_singleChain
